@@ -5,7 +5,9 @@
 //! Classes (the `class` string passed with every input; it is part of abort / hang signatures):
 //!   seed, regression, canary,
 //!   byte-delete, byte-duplicate, byte-replace, truncate        (bytes or, for text APIs, chars)
-//!   length-ladder                                              (text / bytes / html inputs)
+//!   length-ladder, repeat-ladder                               (text / bytes / html inputs)
+//!   multibyte-boundary   (a 2-, 3- or 4-byte character straddling byte 16, 32, ... 4096 of a string:
+//!                         what truncation, chunking and fixed-size buffers trip over)
 //!   json-delete-member, json-duplicate-member, json-type-swap, json-empty-value,
 //!   json-number-boundary, json-nest-array, json-nest-object, json-long-string
 //!   html-nesting, html-nesting-unclosed
@@ -69,6 +71,20 @@ pub const NUMBERS: [&str; 34] = [
 
 pub const LENGTH_RUNGS: [usize; 6] = [255, 256, 257, 65_535, 65_536, 65_537];
 pub const STRING_RUNGS: [usize; 4] = [255, 256, 257, 65_535];
+/// byte offsets a multi-byte character is made to straddle
+pub const STRADDLE_AT: [usize; 10] = [8, 16, 32, 64, 128, 255, 256, 512, 1024, 4096];
+/// (character, how many of its bytes lie before the offset)
+pub const STRADDLERS: [(&str, usize); 4] = [("é", 1), ("€", 1), ("€", 2), ("\u{1F600}", 2)];
+
+/// `a`-runs of `before` bytes followed by a character of which `k` bytes lie before byte `at`
+/// (relative to the start of the returned string) and a short tail
+fn straddle(at: usize, ch: &str, k: usize) -> Option<String> {
+    let fill = at.checked_sub(k)?;
+    let mut t = "a".repeat(fill);
+    t.push_str(ch);
+    t.push_str("aa");
+    Some(t)
+}
 
 #[derive(Clone, Copy, Debug, PartialEq, Eq)]
 pub enum Kind {
@@ -191,9 +207,11 @@ pub fn for_each_input(fam: &Family<'_>, tier: Tier, f: &mut dyn FnMut(u64, &'sta
             Kind::Text | Kind::Bytes => {
                 length_ladder(&mut g, seed);
                 repeat_ladder(&mut g, seed);
+                boundary_ladder(&mut g, seed);
             }
             Kind::Html => {
                 length_ladder(&mut g, seed);
+                boundary_ladder(&mut g, seed);
             }
         }
     }
@@ -416,6 +434,54 @@ fn json_level(g: &mut Gen<'_>, seed: &[u8], tier: Tier) {
                     }
                     t.push_str(&s[first..]);
                     put(g, "json-long-string", &[&J::Str(t).text()]);
+                }
+            }
+            for &at in &STRADDLE_AT {
+                for (ch, k) in STRADDLERS {
+                    if let Some(t) = straddle(at, ch, k) {
+                        put(g, "multibyte-boundary", &[&J::Str(t).text()]);
+                    }
+                }
+            }
+        }
+    }
+}
+
+/// Text / byte inputs: the straddling run inserted at the start, after every separator and at the end
+/// (offset counted from the insertion point), and placed so that the offset counts from the start of
+/// the whole input.
+fn boundary_ladder(g: &mut Gen<'_>, seed: &[u8]) {
+    let mut bounds = vec![0usize];
+    for p in 1..seed.len() {
+        if seed[p - 1].is_ascii_punctuation() && !bounds.contains(&p) && std::str::from_utf8(&seed[..p]).is_ok() {
+            bounds.push(p);
+        }
+    }
+    if !bounds.contains(&seed.len()) {
+        bounds.push(seed.len());
+    }
+    let mut v = Vec::new();
+    for &p in &bounds {
+        for &at in &STRADDLE_AT {
+            for (ch, k) in STRADDLERS {
+                if g.stopped {
+                    return;
+                }
+                for absolute in [false, true] {
+                    let at_rel = if absolute {
+                        match at.checked_sub(p) {
+                            Some(r) if p > 0 => r,
+                            _ => continue,
+                        }
+                    } else {
+                        at
+                    };
+                    let Some(t) = straddle(at_rel, ch, k) else { continue };
+                    v.clear();
+                    v.extend_from_slice(&seed[..p]);
+                    v.extend_from_slice(t.as_bytes());
+                    v.extend_from_slice(&seed[p..]);
+                    g.emit("multibyte-boundary", &v);
                 }
             }
         }
